@@ -342,4 +342,100 @@ class Roles(Sub):
         return Result(viol, any(v >= 2 for v in sets.values()), ["backend:" + backend])
 
 
-SUBCHECKS = [Matrix(), Output(), Roles()]
+class Reauth(Sub):
+    """one connection living through role changes and repeated AUTHs: decisions follow the roles read at the latest AUTH"""
+
+    name = "reauth"
+    examples = {"quick": 300, "thorough": 2400}
+    shards = {"quick": 10, "thorough": 16}
+    rule = ("one websocket connection, operations AUTH as key 0/1, set_auth_roles(key, roles), EVENT, REQ in generated order, "
+            "save/query role sets drawn from {a,r,w}; model: the connection holds the roles stored for its pubkey when it last "
+            "authenticated (anonymous before); a decision is checked when those roles have not been reassigned since (otherwise "
+            "old and new are both accepted); non-trivial = a decision made after a re-AUTH of the same pubkey whose roles were "
+            "changed in between and where old and new roles decide differently")
+
+    def strategy(self, tier):
+        roles = st.sampled_from(["a", "r", "w", "rw", "", "aw"])
+        op = E.weighted((3, st.tuples(st.just("auth"), st.integers(0, 1))), (3, st.tuples(st.just("set"), st.integers(0, 1), roles)),
+                        (3, st.tuples(st.just("event"))), (3, st.tuples(st.just("req"))))
+        # motif: roles set, AUTH, roles changed, AUTH again as the same key, then both actions
+        motif = st.tuples(st.integers(0, 1), roles, roles, st.booleans()).map(
+            lambda t: [["set", t[0], t[1]], ["auth", t[0]]] + ([["event"]] if t[3] else []) +
+                      [["set", t[0], t[2]], ["auth", t[0]], ["event"], ["req"]])
+        seq = st.tuples(st.lists(op.map(list), min_size=0, max_size=8), E.weighted((1, st.just([])), (2, motif)),
+                        st.lists(op.map(list), min_size=0, max_size=4)).map(lambda t: t[0] + t[1] + t[2]).filter(lambda l: len(l) >= 3)
+        return st.tuples(st.sampled_from(["kv", "sql"]), st.sampled_from(["w", "rw", "a", "r"]), st.sampled_from(["r", "rw", "a", "w"]),
+                         seq).map(list)
+
+    def run_case(self, case):
+        return H.run(self._run, case)
+
+    async def _run(self, case):
+        backend, save, query, ops = case
+        viol = []
+        nt = False
+        labels = ["backend:" + backend]
+        cfg = {"authentication": {"enabled": True, "relay_urls": [URL], "actions": {"save": save, "query": query}},
+               "service_privatekey": bootstrap.SERVICE_SK}
+        async with H.Rig(backend, config=cfg) as rig:
+            rig.storage.authenticator.is_enabled = False
+            await rig.add(E.make(3, 1, E.T0 - 5, [], "already there"))
+            rig.storage.authenticator.is_enabled = True
+            c = rig.conn("10.0.0.1")
+            await rig.settle()
+            fr = c.frames()
+            challenge = fr[0][1] if fr and fr[0][0] == "AUTH" else None
+            await c.send(["REQ", "warmup", {"kinds": "x"}])
+            stored = {}          # pubkey index -> roles string last set
+            held = set("a")      # roles the connection certainly holds ...
+            alt = None           # ... or, when reassigned since the last AUTH, maybe these
+            who = None
+            prev_for_who = None
+            n = 0
+            for step, op in enumerate(ops):
+                if op[0] == "set":
+                    await rig.storage.set_auth_roles(E.PKS[op[1]], op[2])
+                    rig.pump()
+                    await rig.settle()
+                    stored[op[1]] = op[2]
+                    if who == op[1]:
+                        alt = set(op[2])
+                elif op[0] == "auth":
+                    rig.clock.now += 1
+                    fr = [json.loads(x) for x in await c.send(["AUTH", auth_event(op[1], challenge, rig.clock.now)])]
+                    new = set(stored.get(op[1], "a"))
+                    reauth_changed = who == op[1] and alt is not None and alt != held
+                    prev_for_who = set(held) if reauth_changed else None
+                    who, held, alt = op[1], new, None
+                    labels.append("re-auth-after-reassignment" if reauth_changed else "auth")
+                else:
+                    n += 1
+                    action = "save" if op[0] == "event" else "query"
+                    cfg_roles = save if action == "save" else query
+                    want = expect_allowed(cfg_roles, held)
+                    either = alt is not None and expect_allowed(cfg_roles, alt) != want
+                    if prev_for_who is not None and expect_allowed(cfg_roles, prev_for_who) != want and not either:
+                        nt = True
+                    if action == "save":
+                        ev = E.make(2, 1, E.T0 + n, [], "x%d" % n)
+                        before = await rig.dump()
+                        fr = [json.loads(x) for x in await c.send(["EVENT", ev])]
+                        oks = [f for f in fr if f[0] == "OK"]
+                        got = bool(oks and oks[0][2])
+                        after = await rig.dump()
+                        if not got and after != before:
+                            viol.append(V("%s-forbidden-save-stored:ws" % backend, "a forbidden event is not stored", step=step, ops=ops))
+                    else:
+                        fr = [json.loads(x) for x in await c.send(["REQ", "q%d" % n, {"kinds": [1]}])]
+                        got = any(f[0] == "EOSE" for f in fr)
+                        await c.send(["CLOSE", "q%d" % n])
+                    if got != want and not either:
+                        viol.append(V("%s-decision-ignores-latest-auth:%s" % (backend, action),
+                                      "an action is decided by the roles the connection obtained at its latest AUTH",
+                                      step=step, ops=ops, save=save, query=query, held=sorted(held), allowed_expected=want, observed=got))
+                if viol or c.task.done():
+                    break
+        return Result(viol, nt, labels)
+
+
+SUBCHECKS = [Matrix(), Output(), Roles(), Reauth()]
